@@ -231,6 +231,16 @@ func c13Profile(tier string) *eng.Profile {
 			}
 		}
 	}
+	// three writes to one key (and a second key) in one transaction: the committed state must be the
+	// last write in call order
+	kv3 := []core.Call{{F: "Put", B: bKV, K: "a", V: "1"}, {F: "Put", B: bKV, K: "a", V: "2"}, {F: "Delete", B: bKV, K: "a"}, {F: "Put", B: bKV, K: "ab", V: "3"}}
+	for _, c1 := range kv3 {
+		for _, c2 := range kv3 {
+			for _, c3 := range kv3 {
+				dep = append(dep, upIgn(c1, c2, c3))
+			}
+		}
+	}
 	// deterministic order (map iteration above is random): sort by rendering
 	sortOps(dep)
 	if tier == "thorough" {
